@@ -17,7 +17,8 @@
    name in GetAllSafeDetails; HTTP / gRPC codes are in the report only -- none of these is in the
    property's list). *)
 From Errv Require Import Base.Str Redact.Markers Redact.Buffer Model.Err Model.Sem Model.Details Model.Marks
-     Model.Codec Model.Report Proofs.RedactFacts Proofs.RedactWf Proofs.ReportFacts Proofs.HiddenVisible Proofs.ExactHop Proofs.SafeRetained.
+     Model.Codec Model.Report Proofs.RedactFacts Proofs.RedactWf Proofs.ReportFacts Proofs.HiddenVisible Proofs.ExactHop Proofs.SafeRetained Proofs.ApiWf Proofs.ApiRetained.
+From Errv Require Import Model.Build.
 
 (* a call made only of literals and safe arguments (any bytes) prints no marker at
    all: nothing of it can be removed by Redact() *)
@@ -82,6 +83,46 @@ Theorem C12_report : forall e,
   (forall n, In n (visit_all e) -> infix_of (type_line n) (rp_types (build_report e))).
 Proof. intro e. split; [apply report_message_has_verbose | intros n H; now apply report_type_line_retained]. Qed.
 Print Assumptions C12_report.
+
+(* ---- on CONSTRUCTOR EXPRESSIONS (Proofs/ApiRetained.v): [safe_inputs r] lists every string the expression passes
+   through a safe channel in a part that becomes part of the error (message of New / Wrap / WithMessage; literals and
+   Safe() arguments of the formats of Newf / AssertionFailedf / Wrapf / WithMessagef / WithSafeDetails /
+   NewAssertionErrorWithWrappedErrf; what the attached error arguments of Newf / AssertionFailedf / Wrapf pass
+   themselves; issue-link URL and detail; telemetry keys; domains; tag keys and safe tag values; sub-expressions that
+   evaluate to nil, what is attached to a nil error and the reference of Mark contribute nothing).  Every such string that
+   is ASCII is, verbatim, in GetAllSafeDetails or in the report message; when it is not empty, in GetAllSafeDetails.
+   [frag]: no Join, no transfer; with error arguments in message formats the conditions of C06_api_short.  What a
+   constructor does NOT retain is witnessed below. ---- *)
+Theorem C12_api_retained : forall env r s e s' t,
+  frag r = true -> build env r s = (Some e, s') -> In t (safe_inputs r) -> ok_piece t = true -> retained t e.
+Proof. exact api_retained. Qed.
+Print Assumptions C12_api_retained.
+
+Theorem C12_api_in_details : forall env r s e s' t,
+  frag r = true -> build env r s = (Some e, s') -> In t (safe_inputs r) -> ok_piece t = true -> t <> [] ->
+  exists p d, In p (get_all_safe_details e) /\ In d (sd_details p) /\ infix_of t d.
+Proof. exact api_retained_in_details. Qed.
+Print Assumptions C12_api_in_details.
+
+(* WithMessagef, WithSafeDetails, HandledWithMessagef, WithHintf and WithDetailf print an error ARGUMENT of their format
+   without attaching it (Newf / AssertionFailedf / Wrapf attach theirs as secondary errors): what such an argument
+   carries in its own safe channels is in neither output -- the reason why [safe_inputs] does not list it *)
+Example C12_api_arguments_not_attached :
+  In (lit "key1") (safe_inputs r_arg) /\
+  ~ retained (lit "key1") (built (RWithMessagef (RNew (lit "boom")) f_arg)) /\
+  ~ retained (lit "key1") (built (RSafeDetails (RNew (lit "boom")) f_arg)) /\
+  ~ retained (lit "key1") (built (RHandledMsgf (RNew (lit "boom")) f_arg)) /\
+  ~ retained (lit "key1") (built (RHintf (RNew (lit "boom")) f_arg)) /\
+  ~ retained (lit "key1") (built (RDetailf (RNew (lit "boom")) f_arg)) /\
+  mentions (lit "key1") (built (RWrapf (RNew (lit "boom")) f_arg)) = true.
+Proof. exact withmessagef_arg_not_retained. Qed.
+
+(* the hypotheses are met by a non-trivial expression, whose nine safe inputs are listed *)
+Example C12_api_example :
+  frag r_ex = true /\
+  safe_inputs r_ex = [lit "boom"; lit "key.one"; lit "dom.x"; lit "while doing "; lit "step7"; lit " for ";
+                      lit "other"; lit "https://issue/1"; lit "det1"].
+Proof. exact r_ex_inputs. Qed.
 
 Example C12_example :
   redact (sprint_pieces [PSafe (lit "pgcode"); PLit (lit ": "); PUnsafe (lit "u")]) =
